@@ -81,6 +81,19 @@ func c05Run(c *ev.Ctx) {
 		groups = append(groups, p)
 	}
 	nds := r.Range(1, 4)
+	// one file in twelve holds no dataset; half of those hold nothing at all, or only the
+	// traces of calls that were refused (a session that allocates nothing after creation)
+	minimal := r.Chance(1, 12)
+	if minimal {
+		nds = 0
+		if r.Bool() {
+			s.Ops, groups, ngroups = nil, nil, 0
+			model = map[string]*c05Obj{}
+			if r.Bool() {
+				s.Ops = append(s.Ops, hx.Op{K: "create_ds", Path: "/nope/x", DT: "i32", Dims: []uint64{2}}, hx.Op{K: "group", Path: "relative"})
+			}
+		}
+	}
 	var dss, resizable []string
 	maxElems := uint64(c.Pick(600, 5000))
 	for i := 0; i < nds; i++ {
